@@ -28,7 +28,7 @@ def main():
             docs = [gv.build(bp)[0] for bp in bps]
             if perm_seed is not None:
                 docs = c16.permute(docs, perm_seed)
-            text = yaml.dump_all(docs, Dumper=getattr(yaml, dname), **opts)
+            text = yaml.dump_all(docs, Dumper=c16.get_dumper(yaml, dname), **opts)
             reply = ("ok", text)
         except BaseException as e:     # reported to the parent, which decides
             reply = ("exc", "%s: %s" % (type(e).__name__, e))
